@@ -3,6 +3,7 @@ import FluteModel.Lemmas.SessionCodec
 import FluteModel.Lemmas.SessionCache
 import FluteModel.Lemmas.SessionCycle
 import FluteModel.Lemmas.SessionCarousel
+import FluteModel.Lemmas.SessionMk
 /-
   C16 — carousel late join: a receiver that starts listening at any packet boundary delivers every
   carouselled object within two further full cycles.
@@ -187,6 +188,54 @@ theorem late_join_two_cycles_session (cF cO : Codec) (rc : RxCfg) (s : SessCfg) 
   exact late_join_two_cycles_stream_nonempty cF cO rc s o hto hN hfit hall f hfind hfN hflook hfresh stream j n ps1 ps2 hjoin hgenF
     (fun q hq => a1 q (hsrc q hq)) (fun q hq => a5 rfl q (hsrc q hq)) hwhole hcycle hsome
 
+/-- **C16 without the FullFDT hypothesis** (ObjectsBeingTransferred mode: an FDT instance lists only the objects
+    in transfer), non-empty objects, receiver as configured.  Only the instance `f` received whole in the first
+    cycle has to list the object; `hfew`: at most 9 FDT instances complete between the join and the deadline
+    (`countFdt` = the `fdt=<n>` observable; the receiver remembers 10 instances). -/
+theorem late_join_two_cycles_any_mode (cF cO : Codec) (rc : RxCfg) (s : SessCfg) (o : ObjCfg)
+    (hto : o.toi ≠ 0) (hN : o.ks.isEmpty = false)
+    (f : FdtCfg) (hlist : f.files.contains o.toi = true) (hfind : s.fdts.find? (fun x => x.id == f.id) = some f)
+    (hfN : f.ks.isEmpty = false) (hflook : f.ks.size ≤ rc.maxLook)
+    (hfresh : blockDone cF.canDecode f.ks s.fdtP [] 0 = false)
+    (stream : List Pkt) (j n : Nat) (ps1 ps2 : List Pkt)
+    (hfit : FitsBytes rc o ((stream.drop j).take n))
+    (hfew : countFdt cF.canDecode rc s fdtRx0 ((stream.drop j).take n) ≤ 9)
+    (hjoin : (stream.drop j).take n = ps1 ++ ps2)
+    (hgenF : ∀ p, p ∈ stream → p.toi = 0 → p.fdtId = f.id → Genuine (fdtObj s f) (toSym p) ∧ p.close = false)
+    (hgenO : ∀ q, q ∈ osyms o stream → Genuine o q)
+    (hcar : ∀ q, q ∈ osyms o stream → q.close = false)
+    (hwhole : AllDec cF (fdtObj s f) (fsyms f.id ps1))
+    (hcycle : AllDec cO o (osyms o ps2))
+    (hsome : osyms o ps2 ≠ []) :
+    1 ≤ (observe cF.canDecode cO.canDecode rc s o ((stream.drop j).take n)).completes := by
+  rw [observe_unl cF.canDecode cO.canDecode rc s o hto _ hfit.2.2]
+  have hmem : ∀ p, p ∈ ps1 ++ ps2 → p ∈ stream := by
+    intro p hp; rw [← hjoin] at hp
+    exact List.mem_of_mem_drop (List.mem_of_mem_take hp)
+  have hnc : ∀ q, q ∈ osyms o (ps1 ++ ps2) → q.close = false := by
+    intro q hq
+    obtain ⟨p, hp, ht, rfl⟩ := mem_osyms.mp hq
+    exact hcar _ (mem_osyms.mpr ⟨p, hmem p hp, ht, rfl⟩)
+  have hfew' : fdtCount (eventsFor cF.canDecode (unl rc) s o fdtRx0 (ps1 ++ ps2)) ≤ 9 := by
+    rw [eventsFor_unl, fdtCount_eventsFor cF.canDecode rc s o hto, ← hjoin]; exact hfew
+  rw [hjoin]
+  apply stream_core_few cF cO (unl rc) s o hto hN (fits_unl rc o _ hfit) f hlist hfind hfN hflook hfresh ps1 ps2
+  · intro p hp; exact hgenF p (hmem p (List.mem_append_left _ hp))
+  · exact hwhole
+  · intro q hq; exact hnc q (by rw [osyms_append]; exact List.mem_append_left _ hq)
+  · intro q hq
+    obtain ⟨p, hp, ht, rfl⟩ := mem_osyms.mp hq
+    exact hgenO _ (mem_osyms.mpr ⟨p, hmem p hp, ht, rfl⟩)
+  · intro a q b hab hq
+    have : q ∈ osyms o (ps1 ++ ps2) := by rw [hab]; simp
+    rw [hnc q this] at hq; exact absurd hq (by simp)
+  · apply allDec_mono cO o _ _ _ hcycle
+    intro q hq; rw [osyms_append]; exact List.mem_append_right _ hq
+  · rw [osyms_append]
+    intro h
+    exact hsome (List.append_eq_nil_iff.mp h).2
+  · exact hfew'
+
 /-! ### the property as stated: two further full cycles -/
 
 /-- **C16: a receiver that joins at ANY packet boundary has every carouselled object within two further
@@ -356,6 +405,95 @@ theorem late_join_within_two_cycles_built (cF cO : Codec) (rc : RxCfg) (s : Sess
     intro p hp ht _
     apply carousel_mem (Slot.fdt f.id) (fun p : Pkt => p.toi == 0) hselF trF sched srcs stream hothF hb xf hxf hcf htrf hrf
     exact List.mem_map.mpr ⟨p, List.mem_filter.mpr ⟨hp, by simp [ht]⟩, rfl⟩
+
+/-- **C16 on exactly what the model driver runs**: `srcs = mkSrcs s` (one source per accepted object and per FDT
+    instance, listings from the model's block encoder), `stream = buildStream srcs sched` for the schedule
+    `sched` read off the implementation (ANY list of slots), deadline `cycleEnd ∘ cycleEnd`.  A carouselled
+    object `o` of a session that publishes one FDT instance listing it is completed by a receiver joining at
+    ANY offset `j` - whenever two further full cycles exist in the stream. -/
+theorem late_join_within_two_cycles_mk (cF cO : Codec) (rc : RxCfg) (s : SessCfg) (o : ObjCfg)
+    (hmem : o ∈ s.objs) (huniq : ∀ o', o' ∈ s.objs → o'.toi = o.toi → o' = o) (hcar : o.carousel = true)
+    (hto : o.toi ≠ 0) (hN : o.ks.isEmpty = false) (hw : 1 ≤ s.w)
+    (hblocks : ∀ (b k : Nat), o.ks[b]? = some k → 1 ≤ k ∧ blockFails o.scheme k o.p = false)
+    (f : FdtCfg) (hfs : s.fdts = [f]) (hlists : f.files.contains o.toi = true)
+    (hfN : f.ks.isEmpty = false) (hflook : f.ks.size ≤ rc.maxLook)
+    (hfresh : blockDone cF.canDecode f.ks s.fdtP [] 0 = false)
+    (hfblocks : ∀ (b k : Nat), f.ks[b]? = some k → 1 ≤ k ∧ blockFails s.fdtScheme k s.fdtP = false)
+    (sched : List Slot) (srcs : List Src) (stream : List Pkt)
+    (hmk : mkSrcs s = some srcs) (hb : buildStream srcs sched = some stream)
+    (hno0 : ∀ k, k ∈ sched → k ≠ Slot.obj 0)
+    (hone : ∀ id, Slot.fdt id ∈ sched → id = f.id)
+    (tois : List Nat) (h0 : 0 ∈ tois) (ho : o.toi ∈ tois)
+    (j d1 d2 : Nat) (hc1 : cycleEnd tois stream j = some d1) (hc2 : cycleEnd tois stream d1 = some d2)
+    (hfit : FitsBytes rc o ((stream.drop j).take (d2 - j))) :
+    1 ≤ (observe cF.canDecode cO.canDecode rc s o ((stream.drop j).take (d2 - j))).completes := by
+  obtain ⟨tr, trLast, h1, _, hxo⟩ := mkSrcs_obj s srcs hmk o hmem huniq
+  obtain ⟨trF, h2, hxf⟩ := mkSrcs_fdt s srcs hmk f (by rw [hfs]; simp)
+    (by intro f' hf' _; rw [hfs] at hf'; simpa using hf')
+  exact late_join_within_two_cycles_built cF cO rc s o hto hN hw hblocks tr trF h1 f hfs hlists hfN hflook hfresh hfblocks h2
+    sched srcs stream hb hno0 hone _ hxo hcar rfl rfl _ hxf rfl rfl rfl tois h0 ho j d1 d2 hc1 hc2 hfit
+
+/-! ### non-vacuity of the session-level theorem: a concrete carousel session -/
+
+/-- one No-Code object of two blocks (2 + 1 symbols), FDT-only OTI, carouselled -/
+def exObj : ObjCfg :=
+  { toi := 1, scheme := .nocode, ks := #[2, 1], blen := #[8, 4], p := 0, inbandFti := false, transfers := 1,
+    carousel := true, noCache := false, pktLen := 36, lastPktLen := 36 }
+def exFdt : FdtCfg := { id := 1, ks := #[2], files := [1] }
+def exSess : SessCfg := { fdtScheme := .nocode, fdtP := 0, w := 2, objs := [exObj], fdts := [exFdt] }
+def exRc : RxCfg := { receiveOnce := true, maxSize := 10485760, pktCap := some 10485760 }
+/-- the scheduler's interleaving: FDT (2 packets) and object (3 packets) alternate, four cycles -/
+def exSched : List Slot :=
+  let c : List Slot := [.fdt 1, .fdt 1, .obj 1, .obj 1, .obj 1]
+  c ++ c ++ c ++ c
+
+/-- every hypothesis of `late_join_within_two_cycles_mk` holds on this session for the join offset 3 (in the
+    middle of the object, after the FDT instance): the first full cycle from 3 ends at 10, the next at 15 - and
+    the model indeed completes the object there (cross-check by evaluation) -/
+example : ∃ srcs stream, mkSrcs exSess = some srcs ∧ buildStream srcs exSched = some stream ∧
+    cycleEnd [0, 1] stream 3 = some 10 ∧ cycleEnd [0, 1] stream 10 = some 15 ∧
+    (observe (canDecodeOf .nocode) (canDecodeOf .nocode) exRc exSess exObj ((stream.drop 3).take (15 - 3))).completes = 1 := by
+  refine ⟨_, _, rfl, rfl, ?_, ?_, ?_⟩ <;> decide
+
+example (srcs : List Src) (stream : List Pkt) (hmk : mkSrcs exSess = some srcs) (hb : buildStream srcs exSched = some stream)
+    (hc1 : cycleEnd [0, 1] stream 3 = some 10) (hc2 : cycleEnd [0, 1] stream 10 = some 15) :
+    1 ≤ (observe (canDecodeOf .nocode) (canDecodeOf .nocode) exRc exSess exObj ((stream.drop 3).take (15 - 3))).completes := by
+  have hfit : FitsBytes exRc exObj ((stream.drop 3).take (15 - 3)) := by
+    refine ⟨by decide, by decide, Or.inr ?_⟩
+    intro cap hcap
+    simp only [exRc, Option.some.injEq] at hcap
+    subst hcap
+    -- at most 12 packets of at most 36 bytes
+    have hlen : ((stream.drop 3).take (15 - 3)).length ≤ 12 := by simp [List.length_take]; omega
+    have hb : ∀ (l : List Sym), cacheSum exObj l ≤ 36 * l.length := by
+      intro l
+      induction l with
+      | nil => simp [cacheSum]
+      | cons a t ih =>
+        have : pktBytes exObj a ≤ 36 := by unfold pktBytes; split <;> decide
+        simp only [cacheSum, List.length_cons]; omega
+    have h2 : (osyms exObj ((stream.drop 3).take (15 - 3))).length ≤ 12 := by
+      unfold osyms
+      rw [List.length_map]
+      exact Nat.le_trans (List.length_filter_le _ _) hlen
+    have := hb (osyms exObj ((stream.drop 3).take (15 - 3)))
+    omega
+  exact late_join_within_two_cycles_mk (codecOf .nocode) (codecOf .nocode) exRc exSess exObj (by simp [exSess])
+    (by intro o' ho' _; simpa [exSess] using ho') rfl (by decide) (by decide) (by decide)
+    (by intro b k hk; exact ⟨by
+          have : b < 2 := by
+            have := (Array.getElem?_eq_some_iff.mp hk).1
+            simpa [exObj] using this
+          have hb : b = 0 ∨ b = 1 := by omega
+          rcases hb with rfl | rfl <;> simp [exObj] at hk <;> omega, rfl⟩)
+    exFdt rfl (by decide) (by decide) (by decide) (by decide)
+    (by intro b k hk; exact ⟨by
+          have : b < 1 := by
+            have := (Array.getElem?_eq_some_iff.mp hk).1
+            simpa [exFdt] using this
+          have hb : b = 0 := by omega
+          subst hb; simp [exFdt] at hk; omega, rfl⟩)
+    exSched srcs stream hmk hb (by decide) (by intro id h; simp [exSched] at h; simp [exFdt, h]) [0, 1] (by simp) (by simp [exObj]) 3 10 15 hc1 hc2 hfit
 
 /-! ### finding e2e-2: an object larger than the cache, joined late -/
 
